@@ -688,8 +688,10 @@ def replay_fault(spec, compressed, kind, pos):
     code, info = load_bytes(apply_fault(buf, kind, pos), orig)
     print({0: "raised", 1: "loaded the original", 2: "LOADED A DIFFERENT ARRAY"}[code], info if code != 2 else "")
     if code == 2:
-        print("original:", orig)
-        print("loaded  :", info)
+        print("original:", str(orig)[:400])
+        print("loaded  :", str(info)[:400])
+        if isinstance(info, dict):
+            print("fields that differ:", [k for k in orig if orig[k] != info.get(k)])
 
 
 def replay(path):
